@@ -282,6 +282,28 @@ void mon_qos2_sender(const Run& run, const Ix& ix, Verdicts& v, vu::Result& res)
             if (h.cpkts[ci].raw != rel0.raw) v.add("C03", "C03:pubrel-not-identical", op_str(o) + ": retransmitted PUBREL differs");
             if (ci != rels[0]) res.count("pubrel_retransmissions");
         }
+        // (e) "until PUBCOMP arrives": a well-formed PUBCOMP (any reason code MQTT 5 lists for it) delivered for a PUBREL whose
+        // write was reported successful, on a connection still alive when both had happened, ends the exchange: no PUBREL afterwards
+        {
+            uint64_t ended_at = UINT64_MAX;
+            for (int ci : rels) {
+                auto& w = h.writes[h.cpkts[ci].write];
+                if (!(w.done && !w.result)) continue;
+                for (int bi : ix.cpkt_acks[ci]) {
+                    auto& b = h.bpkts[bi];
+                    if (b.pkt.type != ref::PUBCOMP || b.delivered_t < 0 || !b.wellformed || b.kind != BKind::normal || b.conn != h.cpkts[ci].conn) continue;
+                    uint64_t at = std::max(b.delivered_seq, w.seq_end);
+                    auto& c = h.conns[b.conn];
+                    if ((c.faulted && c.seq_fault < at) || (c.t_closed >= 0 && c.seq_closed < at)) continue;
+                    ended_at = std::min(ended_at, at);
+                }
+            }
+            if (ended_at != UINT64_MAX) {
+                res.count("pubcomp_consumed");
+                for (int ci : rels) if (h.cpkts[ci].seq > ended_at)
+                    v.add("C03", "C03:pubrel-after-pubcomp", op_str(o) + ": PUBREL transmitted again although the PUBCOMP for a successfully written PUBREL had been delivered before");
+            }
+        }
         // (d) no PUBREL before a successful PUBREC for this exchange was delivered
         bool rec = false;
         for (int ci : pubs) for (int bi : ix.cpkt_acks[ci]) { auto& b = h.bpkts[bi]; if (b.pkt.type == ref::PUBREC && b.pkt.rc < 0x80 && b.delivered_t >= 0 && b.delivered_seq < rel0.seq) rec = true; }
